@@ -241,6 +241,7 @@ type CertPlan struct {
 	LongSerial bool
 	Serial     *big.Int
 	NoCRLSign  bool // CA only: key usage lacks cRLSign
+	SameName   bool // intermediate CA whose subject DN equals its issuer's (key rollover: self-issued, not self-signed)
 	OCSP       []*OCSPSrc
 	CRL        []*CRLSrc
 	Freshest   bool // freshest-CRL extension in the certificate
